@@ -2790,6 +2790,16 @@ func iteratorValue(iterResult *Object) Value {
 	return nilSafe(iterResult.self.getStr("value", nil))
 }
 
+// isScriptException reports whether a recovered panic value is an exception that script code can catch
+// (see vm.exceptionFromValue), as opposed to an interrupt, a stack overflow or a panic of the host's Go code.
+func isScriptException(x interface{}) bool {
+	switch x.(type) {
+	case Value, *Exception, typeError, referenceError, rangeError, syntaxError:
+		return true
+	}
+	return false
+}
+
 func (ir *iteratorRecord) iterate(step func(Value)) {
 	r := ir.iterator.runtime
 	for {
@@ -2805,8 +2815,8 @@ func (ir *iteratorRecord) iterate(step func(Value)) {
 			step(value)
 		})
 		if ret != nil {
-			if asUncatchableException(ret) != nil {
-				// interrupt / stack overflow: no script code (the iterator's return() method) must run
+			if !isScriptException(ret) {
+				// interrupt / stack overflow / foreign Go panic: no script code (the iterator's return() method) must run
 				ir.close()
 				panic(ret)
 			}
@@ -2814,8 +2824,8 @@ func (ir *iteratorRecord) iterate(step func(Value)) {
 				ir.returnIter()
 			})
 			// IteratorClose ignores an exception thrown by return() when the completion is already a throw, but
-			// an uncatchable one (interrupt, stack overflow) must reach the host
-			if ret1 != nil && asUncatchableException(ret1) != nil {
+			// an uncatchable one (interrupt, stack overflow) or a foreign Go panic must reach the host
+			if ret1 != nil && !isScriptException(ret1) {
 				panic(ret1)
 			}
 			panic(ret)
